@@ -80,9 +80,11 @@ def ScopeOk (x y : Scope) : Prop :=
   (x.interruptable = false → y.interruptable = false ∧ y.children.Sublist x.children ∧
     y.volatileChildren.Sublist x.volatileChildren)
 
-/-- a queue stays the same queue; closed means closed for ever, and nothing is added to the buffer any more -/
+/-- a queue stays the same queue; closed means closed for ever, and nothing is added to the buffer any more; the buffer is
+FIFO: whatever happened, it is what was there minus some items at the *front* plus some items at the *back* -/
 def QueueOk (x y : Queue) : Prop :=
-  y.notif = x.notif ∧ y.mutex = x.mutex ∧ (x.closed = true → y.closed = true ∧ y.buffer <:+ x.buffer)
+  y.notif = x.notif ∧ y.mutex = x.mutex ∧ (x.closed = true → y.closed = true ∧ y.buffer <:+ x.buffer) ∧
+  (∃ k ys, y.buffer = x.buffer.drop k ++ ys)
 
 def ChanOk (x y : Chan) : Prop := y.notif = x.notif ∧ (x.closed = true → y.closed = true)
 
@@ -100,11 +102,18 @@ theorem ScopeOk.trans (x y z : Scope) (h1 : ScopeOk x y) (h2 : ScopeOk y z) : Sc
   have c := a6 h
   have d := b6 c.1
   exact ⟨d.1, d.2.1.trans c.2.1, d.2.2.trans c.2.2⟩
-theorem QueueOk.refl (x : Queue) : QueueOk x x := ⟨rfl, rfl, fun h => ⟨h, List.suffix_refl _⟩⟩
+theorem QueueOk.refl (x : Queue) : QueueOk x x := ⟨rfl, rfl, fun h => ⟨h, List.suffix_refl _⟩, ⟨0, [], by simp⟩⟩
+theorem fifo_trans {α} (x y z : List α) (h1 : ∃ k ys, y = x.drop k ++ ys) (h2 : ∃ k zs, z = y.drop k ++ zs) :
+    ∃ k zs, z = x.drop k ++ zs := by
+  obtain ⟨k1, ys, rfl⟩ := h1
+  obtain ⟨k2, zs, rfl⟩ := h2
+  refine ⟨k1 + k2, ys.drop (k2 - (x.drop k1).length) ++ zs, ?_⟩
+  rw [List.drop_append, List.drop_drop, List.append_assoc]
+
 theorem QueueOk.trans (x y z : Queue) (h1 : QueueOk x y) (h2 : QueueOk y z) : QueueOk x z := by
-  obtain ⟨a1, a2, a3⟩ := h1
-  obtain ⟨b1, b2, b3⟩ := h2
-  refine ⟨b1.trans a1, b2.trans a2, fun h => ?_⟩
+  obtain ⟨a1, a2, a3, a4⟩ := h1
+  obtain ⟨b1, b2, b3, b4⟩ := h2
+  refine ⟨b1.trans a1, b2.trans a2, fun h => ?_, fifo_trans _ _ _ a4 b4⟩
   have c := a3 h
   have d := b3 c.1
   exact ⟨d.1, List.IsSuffix.trans d.2 c.2⟩
@@ -379,7 +388,7 @@ macro_rules
       | exact ⟨rfl, rfl, rfl, rfl, List.prefix_refl _, fun h => ⟨h, List.erase_sublist, List.Sublist.refl _⟩⟩
       | exact ⟨rfl, rfl, rfl, rfl, List.prefix_refl _, fun h => ⟨h, List.Sublist.refl _, List.erase_sublist⟩⟩
       | exact QueueOk.refl _
-      | exact ⟨rfl, rfl, fun _ => ⟨rfl, List.suffix_refl _⟩⟩
+      | exact ⟨rfl, rfl, fun _ => ⟨rfl, List.suffix_refl _⟩, ⟨0, [], by simp⟩⟩
       | exact ChanOk.refl _
       | exact ⟨rfl, fun h => h⟩
       | exact ⟨rfl, fun _ => rfl⟩
@@ -390,7 +399,8 @@ macro_rules
          simp_all [World.scope]; done)
       | (refine ⟨rfl, rfl, fun h => ?_, fun h => h⟩; exfalso; (try simp only [ovsimp] at h); simp_all [World.pyEv]; done)
       | (refine ⟨rfl, rfl, fun _ => rfl, fun h => ?_⟩; exfalso; (try simp only [ovsimp] at h); simp_all [World.pyEv]; done)
-      | (refine ⟨rfl, rfl, fun h => ⟨h, ?_⟩⟩; (try simp only [ovsimp]); simp_all; done)))
+      | (refine ⟨rfl, rfl, fun h => ?_, ⟨0, _, rfl⟩⟩; exfalso; (try simp only [ovsimp] at h); simp_all; done)
+      | (refine ⟨rfl, rfl, fun h => ⟨h, ?_⟩, ⟨1, [], ?_⟩⟩ <;> (try simp only [ovsimp]) <;> simp_all <;> done)))
 
 /-- backward chaining for goals `OX(o0, (f w ..))` from a hypothesis `h : OX(o0, w)` -/
 syntax "ox " ident : tactic
